@@ -6,8 +6,10 @@ import QV.Model.Decopt
 /-! Driver ops of C12.
 
 `c12.optimize` {n, gates, quirks, sections:[{start, exprs:[[name,bexp]], choices:[Nat]}]}
-  -> {error} | {gates, sections:[{start, stop, old, new, qmap, num_qubits, accepted, stable, ok, simp_ok}],
-                validated, triggers}
+  -> {error} | {gates, sections:[{start, stop, old, new, qmap, num_qubits, accepted, stable, ok, simp_ok,
+                                  keys_ok, xonly}], validated, triggers}
+  (`keys_ok`/`xonly` = `keysOK`/`xonly` of `QV.Decopt` on the logged expressions: hypothesis and conclusion of
+  `QV.C12.accepted_xonly`)
   (`sections[k].exprs` = the simplified expressions the real run handed to `exprs_to_quantum` for
   the section starting at `start`, `choices` = the ancillas popped during that re-synthesis)
 `c12.simplify` {expr, table:[[in,out]]} -> {out} | {error}: `custom_simplify_logic2` with
@@ -62,7 +64,9 @@ def optimizeOp (j : Json) : R Json := do
             ("new", gatesJ r.gates), ("qmap", Comp.qmapJ r.qmap), ("num_qubits", toJson r.numQubits),
             ("accepted", toJson (accept q n s r)), ("stable", toJson (nameStable n r.qmap)),
             ("ok", toJson (sectionOKb n s.gates r.gates)),
-            ("simp_ok", toJson (match find s with | some l => simpOk n s l.exprs | none => false))]
+            ("simp_ok", toJson (match find s with | some l => simpOk n s l.exprs | none => false)),
+            ("keys_ok", toJson (match find s with | some l => keysOK n l.exprs | none => false)),
+            ("xonly", toJson (match find s with | some l => xonly n l.exprs r.gates | none => false))]
       pure (Json.mkObj [("gates", gatesJ out), ("sections", Json.arr (secs.map secJ).toArray),
         ("validated", toJson (validated q n resyn secs)),
         ("triggers", toJson (Decopt.triggers q n resyn secs)),
